@@ -33,13 +33,19 @@ import re
 from . import impl
 from .explore import Canon
 
-KINDS = ['div0', 'subs', 'ovf', 'illf', 'data']
+KINDS = ['div0', 'subs', 'ovf', 'illf', 'data', 'dtyp', 'pok', 'fmt']
 KIND_TRAP = {'div0': 'DIVISION_BY_ZERO', 'subs': 'INDEX_OUT_OF_RANGE',
              'ovf': 'INVALID_CELL_VALUE', 'illf': 'INVALID_OPERAND_VALUE',
-             'data': 'DEVICE_ERROR'}
+             'data': 'DEVICE_ERROR', 'dtyp': 'DEVICE_ERROR', 'pok': 'DEVICE_ERROR',
+             'fmt': 'INVALID_OPERAND_VALUE'}
 BENIGN = {'j': 1, 'd': 1, 'v': 1, 'c': 0, 'e': 0}
 BAD = {'div0': ('d', 0), 'subs': ('j', 9), 'ovf': ('v', 32767),
-       'illf': ('c', -1), 'data': ('e', 1)}
+       'illf': ('c', -1), 'data': ('e', 1),
+       # a DATA item that cannot be read into the variable's type (the failed
+       # READ must not consume it); errors reported by the *last* instruction
+       # of a statement: POKE of a value that is no byte, PRINT USING with a
+       # string field for a number
+       'dtyp': ('e', 2), 'pok': ('v', 32767), 'fmt': ('c', -1)}
 EXPR_KINDS = ['div0', 'subs', 'ovf', 'illf']
 
 MODES = ['A', 'N', 'Z']        # ON ERROR GOTO h | ON ERROR RESUME NEXT | armed then GOTO 0
@@ -111,6 +117,14 @@ def _ap_deep(st, i, out):
     out.append(('lit', 'sc' + _fmt_int(3) + _fmt_int(i) + '\r\n'))
 
 
+def _ap_poke(st, i, out):
+    out.append(('lit', '<poke 10 1>'))
+
+
+def _ap_pus(st, i, out):
+    out.append(('lit', ' 2\r\n'))
+
+
 def _ap_sub(st, i, out):
     st['a2'] = 4 + i
 
@@ -167,6 +181,17 @@ FORMS = [
     # returned (its result is on the operand stack)
     Form('aft', 'stmt', _L('x@% = fe%(3) + FX'), ('main', 0, 0),
          apply=_set(x=8), skip=_none),
+    # a READ that meets an item it cannot convert; the two READs after it
+    # show where the DATA cursor is (s$ takes any item)
+    Form('rdt', 'stmt', _L('READ r@%', 'READ s@$', 'READ k@%'), ('main', 0, 0), kinds=['dtyp'],
+         setup=_L('RESTORE dok', 'IF e@% = 2 THEN RESTORE dbad'),
+         apply=_set(r=7, s='8', k=9), skip=_set(s='xy', k=5)),
+    # the error is reported by the final (io) instruction of the statement
+    Form('poke', 'stmt', _L('POKE 10, v@%'), ('main', 0, 0), kinds=['pok'],
+         apply=_ap_poke, skip=_none),
+    Form('pus', 'stmt', _L('PRINT USING g@$; 2'), ('main', 0, 0), kinds=['fmt'],
+         setup=_L('g@$ = "##"', 'IF c@% < 0 THEN g@$ = "&"'),
+         apply=_ap_pus, skip=_none),
     # call chain of depth two
     Form('deep', 'proc', _L('CALL sc(j@%, d@%, v@%, c@%, @)'), ('proc:fb', 0, 0),
          apply=_ap_deep, skip=_none),
@@ -236,7 +261,7 @@ class Skeleton:
         # every variable is mentioned here, in a fixed order, so that the
         # storage layout does not depend on which body statements exist
         for i in range(1, n + 1):
-            add(': '.join(f'{v}{i}% = 0' for v in VARS_INT) + f': s{i}$ = ""')
+            add(': '.join(f'{v}{i}% = 0' for v in VARS_INT) + f': s{i}$ = "": g{i}$ = ""')
         add('w% = 0: ke% = 0')
         add('a%(1) = 1')
         gos = []
@@ -296,8 +321,13 @@ class Skeleton:
         elif self.handler == 'H2':
             add('PRINT "E"; ERR', ('H',))
             for i, fname in enumerate(self.forms, 1):
-                fix = 'RESTORE dok: w% = 0' if fname == 'read' else \
-                    f'j{i}% = 1: d{i}% = 1: v{i}% = 1: c{i}% = 0'
+                fix = 'RESTORE dok: w% = 0' if fname in ('read', 'rdt') else \
+                    f'j{i}% = 1: d{i}% = 1: v{i}% = 1: c{i}% = 0' + \
+                    (f': g{i}$ = "##"' if fname == 'pus' else '')
+                if fname == 'rdt':
+                    # first a RESUME without any repair: the READ must fail
+                    # in the same way again
+                    add(f'IF b{i}% = 2 THEN b{i}% = 1: RESUME')
                 add(f'IF b{i}% THEN b{i}% = 0: e{i}% = 0: {fix}: RESUME')
             add('PRINT "unfixable"')
             add('END')
@@ -305,6 +335,8 @@ class Skeleton:
             add('RESUME NEXT', ('H',))
         add('dok:')
         add('DATA 7, 8, 9')
+        add('dbad:')
+        add('DATA xy, 5')
         base = len(lines)
         for l in PROCS:
             add(l)
@@ -326,7 +358,8 @@ class Skeleton:
             if k is not None:
                 var, val = BAD[k]
                 a[var] = val
-            out.append(f"{a['j']},{a['d']},{a['v']},{a['c']},{a['e']},{1 if k else 0}")
+            b = 2 if k == 'dtyp' else (1 if k else 0)
+            out.append(f"{a['j']},{a['d']},{a['v']},{a['c']},{a['e']},{b}")
         return out
 
 
@@ -358,11 +391,15 @@ def model(mode, handler, forms, plan):
             return {'pattern': out, 'end': ('trap', KIND_TRAP[kind]), 'open': False,
                     'handler_entries': handler_entries, 'wild': False}
         if mode == 'A':
-            handler_entries.append((i, kind))
-            if handler in ('H1', 'H2'):
-                out.append(('lit', 'E'))
-                out.append(('err', kind))
-                out.append(('lit', '\r\n'))
+            # the H2 handler first resumes a failed READ without repairing
+            # anything: the READ fails again, with the same ERR
+            reps = 2 if (kind == 'dtyp' and handler == 'H2' and f.spec != 'proc') else 1
+            for _ in range(reps):
+                handler_entries.append((i, kind))
+                if handler in ('H1', 'H2'):
+                    out.append(('lit', 'E'))
+                    out.append(('err', kind))
+                    out.append(('lit', '\r\n'))
         if f.spec == 'proc':
             # inside a procedure: nothing after handler entry is specified
             out.append(('rest',))
@@ -603,6 +640,9 @@ def run_plan(comp, script, repair=False, horizon=30000):
             text = []
         elif ev[0] == 'print':
             text.append(ev[1])
+        elif ev[0] == 'dev' and len(ev) > 2 and ev[2] == 'poke':
+            # the one device call of the alphabet that prints nothing
+            text.append('<poke %s>' % ' '.join(str(x) for x in ev[3:]))
     r.text = ''.join(text)
     r.raised = m.cpu.last_trap is not None
     return r
